@@ -481,6 +481,16 @@ pub fn c10(cx: &mut Ctx) {
             }
         }
     }
+    // other spellings of the close option (letter case, a member of a list, padding): the verdict is compared with
+    // the model; the oracle does not take sides on whether these "carry Connection: close"
+    for v in ["Close", "CLOSE", "keep-alive, close", "close, keep-alive", "Keep-Alive,Close", "close,", "closed", "x-close", "keep-alive"] {
+        for side in 0..2 {
+            cx.case("spell");
+            let req = if side == 0 { format!("GET HTTP/1.1 http://a.test/p {}", super::hdrs(&[("connection", v.as_bytes())])) } else { "GET HTTP/1.1 http://a.test/p 0".to_string() };
+            let head = if side == 1 { format!("HTTP/1.1 200 R\r\nConnection: {}\r\nContent-Length: 0\r\n\r\n", v) } else { "HTTP/1.1 200 R\r\nContent-Length: 0\r\n\r\n".to_string() };
+            c10_exchange(cx, &req, 0, head.as_bytes());
+        }
+    }
     // the shortest answers a server can give while the client awaits 100 (status line without reason phrase, no
     // fields, bare-LF line ends), to requests that announce a body of 5 bytes, of 0 bytes, or a chunked one
     for answer in ["HTTP/1.1 204\r\n\r\n", "HTTP/1.1 304\r\n\r\n", "HTTP/1.1 301\r\n\r\n", "HTTP/1.1 101\r\n\r\n", "HTTP/1.1 204 \r\n\r\n", "HTTP/1.1 403\r\nContent-Length: 0\r\n\r\n",
